@@ -258,6 +258,9 @@ func ledgerGen(prop string) func(rng *core.Rng, tier string) *harness.Plan {
 		}
 		for i := 0; i < rng.IntN(3); i++ {
 			p.Ops = append(p.Ops, harness.Op{At: int64(rng.Dur(15*time.Second, dur) / time.Microsecond), Kind: "doublespend", S: fmt.Sprint("x", i), N: rng.IntN(9), M: rng.IntN(9), A: int64(rng.IntN(1000))})
+			if prop == "C16" && rng.Chance(0.7) {
+				p.Ops = append(p.Ops, harness.Op{At: int64(rng.Dur(15*time.Second, dur) / time.Microsecond), Kind: "keyclash", S: fmt.Sprint("k", i), N: rng.IntN(9), M: rng.IntN(9), A: int64(rng.IntN(1000)), B: int64(rng.IntN(4000))})
+			}
 		}
 		if prop == "C16" {
 			// capped-asset scenarios (BTC capacity 2500, ETH 5000)
